@@ -376,10 +376,14 @@ fn check_doc(doc: &Doc, c: &Cfg) -> Vec<Viol> {
             out.push(viol("one-blank-line-between-paragraphs", ctx(&format!("between paragraphs: {:?}", between))));
         }
     }
-    // (viii) idempotent
+    // (viii) idempotent: on the returned object and on its re-read text
     let again = wrap_doc(&result, c).to_string();
     if again != out_text {
         out.push(viol("idempotent", ctx(&format!("second application gives {:?}", again))));
+    }
+    let again2 = wrap_doc(&re, c).to_string();
+    if again2 != out_text {
+        out.push(viol("idempotent", ctx(&format!("reformatting the re-read output gives {:?}", again2))));
     }
     // paragraph- and entry-level entry points agree with the document-level one
     if c.porder == 0 {
@@ -523,10 +527,36 @@ fn check_doc(doc: &Doc, c: &Cfg) -> Vec<Viol> {
 /// documents without any paragraph
 pub const NO_PARA_TEXTS: [&str; 5] = ["", "# c\n", "\n\n", "# c\n\n# d\n", "\n# c\n"];
 
+/// live documents that contain a paragraph WITHOUT fields (which no text can express): (text, how) with how = index of the
+/// paragraph whose fields are all removed, or 100 = add_paragraph() at the end, 101 = insert_paragraph(0)
+pub const EMPTIED: [(&str, usize); 6] = [("A: 1\n\nB: 2\n\nC: 3\n", 1), ("A: 1\n\nB: 2\n", 0), ("A: 1\n\nB: 2\n", 1), ("A: 1\n# c\n", 100), ("# l\nA: 1\n x\n\nB: 2", 101), ("A: 1\n", 0)];
+
 fn check_fixed(ti: usize, c: &Cfg) -> Vec<Viol> {
-    let text = NO_PARA_TEXTS[ti];
     let mut out = vec![];
-    let Ok(d) = Deb822::from_str(text) else { return out };
+    let (text, d) = if ti < NO_PARA_TEXTS.len() {
+        let Ok(d) = Deb822::from_str(NO_PARA_TEXTS[ti]) else { return out };
+        (NO_PARA_TEXTS[ti], d)
+    } else {
+        let Some((t, how)) = EMPTIED.get(ti - NO_PARA_TEXTS.len()) else { return out };
+        let Ok(mut d) = Deb822::from_str(t) else { return out };
+        match how {
+            100 => {
+                d.add_paragraph();
+            }
+            101 => {
+                d.insert_paragraph(0);
+            }
+            i => {
+                if let Some(mut p) = d.paragraphs().nth(*i) {
+                    let keys: Vec<String> = p.keys().collect();
+                    for k in keys {
+                        p.remove(&k);
+                    }
+                }
+            }
+        }
+        (*t, d)
+    };
     let result = wrap_doc(&d, c);
     let out_text = result.to_string();
     let ctx = |what: &str| format!("input {:?} cfg {:?} output {:?}: {}", text, c, out_text, what);
@@ -557,9 +587,24 @@ fn check_fixed(ti: usize, c: &Cfg) -> Vec<Viol> {
             out.push(viol("comment-kept-on-own-line", ctx(&format!("comment {:?}", cl))));
         }
     }
+    // exactly one blank line between paragraphs, none doubled
+    let sc = scan(&out_text);
+    for w in sc.paras.windows(2) {
+        let between = &out_text[w[0].end..w[1].start];
+        let blanks = between.split_inclusive('\n').filter(|l| l.trim_end_matches('\n').is_empty()).count();
+        if blanks != 1 {
+            out.push(viol("one-blank-line-between-paragraphs", ctx(&format!("between paragraphs: {:?}", between))));
+        }
+    }
     let again = wrap_doc(&result, c).to_string();
     if again != out_text {
         out.push(viol("idempotent", ctx(&format!("second application gives {:?}", again))));
+    }
+    if let Ok(re) = Deb822::from_str(&out_text) {
+        let again2 = wrap_doc(&re, c).to_string();
+        if again2 != out_text {
+            out.push(viol("idempotent", ctx(&format!("reformatting the re-read output gives {:?}", again2))));
+        }
     }
     out
 }
@@ -832,7 +877,7 @@ impl Prop for C07 {
                     }
                 });
             }
-            for text in 0..NO_PARA_TEXTS.len() {
+            for text in 0..NO_PARA_TEXTS.len() + EMPTIED.len() {
                 product(&cfg_menus(), &mut |cv| {
                     f(&C07Case::Fixed { text, cfg: cfg_from(cv) });
                 });
